@@ -3899,6 +3899,11 @@ async fn run_gathering_loop(
     let mut ice_state_rx = ice_transport.subscribe_state();
     let mut cand_rx = ice_transport.subscribe_candidates();
     loop {
+        // The subscription above is made when this task is first polled: a `close()` that
+        // lands before that has already stopped ICE, and `changed()` below would never fire.
+        if is_ice_failed_or_closed(*ice_state_rx.borrow_and_update()) {
+            break;
+        }
         let state = *rx.borrow_and_update();
         if state == crate::transports::ice::IceGathererState::Complete
             && let Some(inner) = inner_weak.upgrade()
